@@ -1019,9 +1019,7 @@ class ExperimentTopology(Topology):
         """
         if i.type != InterfaceType.ServicePort:
             # disconnect if connected to a network service (as remove_node and remove_component do)
-            peers = i.get_peers(itype=InterfaceType.ServicePort)
-            if peers and len(peers) == 1:
-                self.get_parent_element(peers[0]).disconnect_interface(i)
+            self._disconnect_from_services([i])
         self.graph_model.remove_cp_and_links(node_id=i.node_id)
 
     def _in_model(self, e: ModelElement) -> bool:
